@@ -699,6 +699,19 @@ func verbatimOfField(v ssa.Value, d int) bool {
 			}
 		}
 		return len(x.Edges) > 0
+	case *ssa.Call:
+		// an unexported one-argument accessor of the same package whose every return is such a field
+		h := sx.Callee(x)
+		if h == nil || h.Blocks == nil || sx.Exported(h) || len(x.Call.Args) != 1 || x.Parent() == nil || h.Pkg != x.Parent().Pkg {
+			return false
+		}
+		rets := sx.Returns(h)
+		for _, hr := range rets {
+			if len(hr.Results) != 1 || !verbatimOfField(hr.Results[0], d+1) {
+				return false
+			}
+		}
+		return len(rets) > 0
 	}
 	return false
 }
